@@ -753,7 +753,7 @@ class Exec:
                     continue
                 x.status, x.exc_frame = 'exc', x.tries[-1]
                 x.exc_info = s
-                x.emit('raised', s, node=s)
+                x.emit('raised', s, _v, node=s)      # b = the value whose computation (or use) failed
                 out.append(x)
             if any(x.status == 'exc' and x.exc_info is not s for x in out):
                 # the statement's own calls were followed: the raise points inside them stand for it
@@ -774,7 +774,12 @@ class Exec:
     st_ImportFrom = st_Global
 
     def st_Expr(self, s, st):
-        return [x for x, _ in self.ev(s.value, st)]
+        out = []
+        for x, v in self.ev(s.value, st):
+            if x.status == 'run' and v[0] in ('sub', 'item', 'attr'):
+                x.emit('eval', v, node=s)        # evaluated for its possible exception (`d[k]` inside try)
+            out.append(x)
+        return out
 
     def st_Assign(self, s, st):
         out = []
